@@ -68,6 +68,8 @@ type C13Case struct {
 	// Ghost: the "id nobody uses" (target 2) is the id of a third call whose opening write was still parked in the
 	// transport when its caller's context ended ("stream" or "unary"); "" = an arbitrary unused number
 	Ghost string `json:"ghost,omitempty"`
+	// ErrKind: the error value with which the transport fails when the connection is closed at the end (kit.FaultErrKinds)
+	ErrKind string `json:"err_kind,omitempty"`
 }
 
 func (c C13Case) names() []string {
@@ -85,6 +87,7 @@ func genC13(t *rapid.T) C13Case {
 		Stats: rapid.Bool().Draw(t, "stats"), Deadline: rapid.Bool().Draw(t, "deadline"), HeaderFirst: rapid.Bool().Draw(t, "hf"), Ser: rapid.Bool().Draw(t, "ser")}
 	c.Burst = rapid.Bool().Draw(t, "burst")
 	c.Ghost = rapid.SampledFrom([]string{"", "", "stream", "unary"}).Draw(t, "ghost")
+	c.ErrKind = rapid.SampledFrom(kit.FaultErrKinds).Draw(t, "err_kind")
 	n := rapid.IntRange(1, 30).Draw(t, "len")
 	for i := 0; i < n; i++ {
 		// runs of the same envelope matter (they fill the one-slot queues), so repeat the previous symbol with probability 1/3
@@ -136,6 +139,7 @@ func (nopStats) TagConn(ctx context.Context, _ *statsConnTagInfo) context.Contex
 func (nopStats) HandleConn(context.Context, statsConnStats)                       {}
 
 func execC13(t *testing.T, c C13Case) (v Verdict) {
+	defer kit.UseFaultKind(c.ErrKind)()
 	al := c13Alphabet()
 	obs := []*c13Obs{{}, {}}
 	var mu sync.Mutex
